@@ -214,7 +214,7 @@ let ctor (s : string) : float matrix option =
   | "identity" -> Some (identity fops (u 1))
   | "zeros" -> Some (zeros fops (u 1) (u 2))
   | "full" -> Some (full fops (u 1) (u 2))
-  | "square" -> Some (square (u 1))
+  | "square" -> Some (square fops (u 1))
   | "banded" -> Some (banded fops (u 1) (u 2) (u 3))
   | "lower" -> Some (lower_triangular fops (u 1))
   | "upper" -> Some (upper_triangular fops (u 1))
